@@ -357,6 +357,10 @@ def list_docs(tier):
                     out.append("%s%s:d\n" % (p, a))
                     out.append("%s%s\n%s:d %s\n" % (p, a, p[:-1], a))
                     out.append("%s%s\n%s:d\n%sz\n" % (p, a, p[:-1], p))
+                    # a definition that is present but EMPTY: nothing at all after the colon (end of the text, end of an element)
+                    out.append("%s%s:" % (p, a))
+                    out.append("intro\n<div>\n%s%s:</div>after\n" % (p, a))
+                    out.append("%s%s:\n" % (p, a))
     return out
 
 
